@@ -217,7 +217,12 @@ func verifySigned(out []byte, withInt bool, keyType string) (entity []byte, prob
 		if len(info.Certificates) != want {
 			probs = append(probs, fmt.Sprintf("certificates: %d certificates carried, expected %d (intermediate given: %t)", len(info.Certificates), want, withInt))
 		}
-		if withInt && len(info.Certificates) == 2 && info.SignerCert != nil {
+		if withInt && keyType == "ecdsa-rootgiven" && len(info.Certificates) == 2 {
+			// the certificate the caller gave is the chain's root, not the issuer: it is carried all the same
+			if !info.Certificates[0].Equal(gen.Keys().RootCert) && !info.Certificates[1].Equal(gen.Keys().RootCert) {
+				probs = append(probs, "certificates: the certificate given as intermediate is not among the carried certificates")
+			}
+		} else if withInt && len(info.Certificates) == 2 && info.SignerCert != nil {
 			if err := info.SignerCert.CheckSignatureFrom(info.Certificates[1]); err != nil {
 				probs = append(probs, "certificates: the second carried certificate did not issue the signer certificate")
 			}
@@ -404,7 +409,7 @@ func runC08Case(r *ev.Run, c c08Case) {
 					r.HarnessError(fmt.Sprintf("C08: own verifier rejects (%v) but openssl accepts - the verifier is wrong (feature %s)", probs[render], feat))
 				}
 			}
-			if c.Spec.WithInt && len(probs[render]) == 0 {
+			if c.Spec.WithInt && len(probs[render]) == 0 && c.Spec.SMIME != "ecdsa-rootgiven" {
 				ok, msg := opensslVerify(outs[render], true)
 				r.Count("openssl_chain_verifications", 1)
 				if !ok {
@@ -438,9 +443,9 @@ func genC08(rng *mrand.Rand, id string, p, e, a int, enc string) c08Case {
 	}
 	fix(s.Embeds)
 	fix(s.Attach)
-	s.SMIME = gen.Pick(rng, []string{"rsa", "ecdsa", "rsa", "ecdsa", "rsa-ca384", "ecdsa-ca384", "rsa-sameserial"})
+	s.SMIME = gen.Pick(rng, []string{"rsa", "ecdsa", "rsa", "ecdsa", "rsa-ca384", "ecdsa-ca384", "rsa-sameserial", "rsa-utf8issuer", "ecdsa-rootgiven"})
 	s.WithInt = rng.Intn(2) == 0
-	if s.SMIME == "rsa-sameserial" {
+	if s.SMIME == "rsa-sameserial" || s.SMIME == "rsa-utf8issuer" || s.SMIME == "ecdsa-rootgiven" {
 		s.WithInt = true
 	}
 	if rng.Intn(6) == 0 {
@@ -462,7 +467,7 @@ func genC08(rng *mrand.Rand, id string, p, e, a int, enc string) c08Case {
 
 func runC08(r *ev.Run, rep *ev.ReplayDoc) ev.Summary {
 	sum := ev.Summary{
-		Rule: "S/MIME-signed messages over enumerated shapes (parts 0-3 x embeds 0-2 x attachments 0-2) and random specs with canonical-CRLF content, every transfer encoding per part and file, part and file descriptions that need encoded-words under every message encoding and charset, empty generic headers, address lists emptied by the IgnoreInvalid setters, (multi-line) preformatted headers, long folded headers, signing configured through SignWithTLSCertificate, signing configured after the message has been rendered unsigned, message middlewares that change the body / a header / the part encoding / add an attachment, RSA-2048 and ECDSA-P256 signer certificates with and without the intermediate, also leaves whose own certificate is signed ecdsa-with-SHA384 by a P-384 CA, and a leaf that has the same serial number as its issuing intermediate; each message rendered twice, and a third time after further builder calls (add an alternative / attachment / embed, change subject or header, replace the body, add a recipient). The harness splits multipart/signed with its own MIME reader and verifies the detached CMS SignedData with its own verifier; openssl smime -verify cross-checks (all cases in quick, a sample in thorough). distinct by (shape, features)",
+		Rule: "S/MIME-signed messages over enumerated shapes (parts 0-3 x embeds 0-2 x attachments 0-2) and random specs with canonical-CRLF content, every transfer encoding per part and file, part and file descriptions that need encoded-words under every message encoding and charset, empty generic headers, address lists emptied by the IgnoreInvalid setters, (multi-line) preformatted headers, long folded headers, signing configured through SignWithTLSCertificate, signing configured after the message has been rendered unsigned, message middlewares that change the body / a header / the part encoding / add an attachment, RSA-2048 and ECDSA-P256 signer certificates with and without the intermediate, also leaves whose own certificate is signed ecdsa-with-SHA384 by a P-384 CA, a leaf that has the same serial number as its issuing intermediate, a leaf whose issuer field spells the intermediate's name in another string encoding, and the chain's root handed over in place of the direct issuer; each message rendered twice, and a third time after further builder calls (add an alternative / attachment / embed, change subject or header, replace the body, add a recipient). The harness splits multipart/signed with its own MIME reader and verifies the detached CMS SignedData with its own verifier; openssl smime -verify cross-checks (all cases in quick, a sample in thorough). distinct by (shape, features)",
 		Assumptions: []string{
 			"the signed entity is the first body part exactly as emitted, without the CRLF that belongs to the following delimiter (RFC 1847)",
 			"trust in the harness CMS verifier is established per run against OpenSSL 3 on every cross-checked message (a disagreement in the accepting direction is a harness error)",
